@@ -8,6 +8,7 @@ budget test after every update.
 -/
 import KDVerif.Lemmas.Interleaved
 import KDVerif.Lemmas.InterleavedStream
+import KDVerif.Lemmas.InterleavedBudget
 
 namespace KDVerif.C04
 open KDVerif.Interleaved
@@ -152,6 +153,36 @@ theorem epochs_budget_exact (a : Args) (main : Nat → List Nat) (side : Nat →
     (E : Nat) (hbud : a.budget = .epochs E) (n : Nat) (s : Start) (evs : List Ev) (hlt : s.epoch < E)
     (h : l1 a main side n s = some evs) : epochsOf evs = List.range' s.epoch (E - s.epoch) :=
   l1_epochsOf a main side E hbud n s evs hlt h
+
+/-- **samples budget is exact**: with `samples = S` started at sample counter `s₀ < S` the stream reaches the budget
+    (`S ≤ s₀ + #main samples`) and does not go one update too far: taking away the LAST main batch (size `r`,
+    `0 < r ≤ B`) the budget was not yet reached. Hence the overshoot is smaller than one batch. -/
+theorem samples_budget_exact (a : Args) (main : Nat → List Nat) (side : Nat → Nat → List Nat)
+    (hB : 0 < a.B) (hS : 0 < spe a) (hmain : ∀ e, spe a ≤ (main e).length)
+    (hmainlt : ∀ e x, x ∈ main e → x < a.mainDsLen) (Sb : Nat) (hbud : a.budget = .samples Sb)
+    (n : Nat) (s : Start) (evs : List Ev) (hlt : s.sample < Sb) (h : l1 a main side n s = some evs) :
+    Sb ≤ s.sample + countMain a.mainDsLen evs ∧
+    ∃ r, (mainSizes a.mainDsLen evs).getLast? = some (r, true) ∧ 0 < r ∧ r ≤ a.B ∧
+      r ≤ countMain a.mainDsLen evs ∧ s.sample + (countMain a.mainDsLen evs - r) < Sb :=
+  l1_countMain_samples a main side hB hS hmain hmainlt Sb hbud n s evs hlt h
+
+/-- **batch sizes, stream-wide**: every main batch has between 1 and `B` indices, and a batch shorter than `B` is
+    the last one of its epoch (what follows it in the main stream is a `set_epoch` or the end of the stream) —
+    for every budget kind and any interleaved configs in between -/
+theorem only_an_epochs_last_batch_is_short (a : Args) (main : Nat → List Nat) (side : Nat → Nat → List Nat)
+    (hB : 0 < a.B) (hS : 0 < spe a) (hmain : ∀ e, spe a ≤ (main e).length)
+    (hmainlt : ∀ e x, x ∈ main e → x < a.mainDsLen)
+    (n : Nat) (s : Start) (evs : List Ev) (h : l1 a main side n s = some evs) :
+    ∀ p ∈ mainSizes a.mainDsLen evs, SizeOk a.B p :=
+  l1_mainSizes a main side hB hS hmain hmainlt n s evs h
+
+/-- with an epochs budget every epoch contributes exactly `samples_per_epoch` main samples -/
+theorem epochs_budget_sample_count (a : Args) (main : Nat → List Nat) (side : Nat → Nat → List Nat)
+    (hB : 0 < a.B) (hS : 0 < spe a) (hmain : ∀ e, spe a ≤ (main e).length)
+    (hmainlt : ∀ e x, x ∈ main e → x < a.mainDsLen) (E : Nat) (hbud : a.budget = .epochs E)
+    (n : Nat) (s : Start) (evs : List Ev) (hlt : s.epoch < E) (h : l1 a main side n s = some evs) :
+    countMain a.mainDsLen evs = (E - s.epoch) * spe a :=
+  l1_countMain_epochs a main side hB hS hmain hmainlt E hbud n s evs hlt h
 
 /-- non-vacuity: a concrete accepted geometry with a checkpoint before the budget -/
 example : ctor ⟨5, 5, 2, true, none, .epochs 2, []⟩ .none = .ok ⟨0, 0, 0⟩ ∧
